@@ -2655,23 +2655,27 @@ func runConstructorConsistencyAgreement(rr *RuleRun) {
 		if fd == nil {
 			continue
 		}
+		// the if / else-if chain directly inside the loop over the members:
+		//   if SEED (no element type yet) { adopt } else if GUARD { reject }
 		inspectNoLit(fd.Body, func(n ast.Node) bool {
-			is, ok := n.(*ast.IfStmt)
+			rs, ok := n.(*ast.RangeStmt)
 			if !ok || guards[name] != "" {
 				return true
 			}
-			// if elementType == DynamicPseudoType { … } else if GUARD { reject }
-			if !eqCond(is.Cond, func(e ast.Expr) bool { return objOf(info, e) != nil && isCtyType(info.TypeOf(e)) && !isPkgVar(info, e, "cty", "DynamicPseudoType") },
-				func(e ast.Expr) bool { return isPkgVar(info, e, "cty", "DynamicPseudoType") }) {
-				return true
+			for _, st := range rs.Body.List {
+				is, ok := st.(*ast.IfStmt)
+				if !ok {
+					continue
+				}
+				ei, ok := is.Else.(*ast.IfStmt)
+				if !ok {
+					continue
+				}
+				cc := &canonCtx{info: info, subst: map[types.Object]string{}, locals: map[types.Object]string{}}
+				guards[name] = "if " + cc.expr(is.Cond) + " adopt, else if " + cc.expr(ei.Cond) + " reject"
+				pos[name] = is.Pos()
+				break
 			}
-			ei, ok := is.Else.(*ast.IfStmt)
-			if !ok {
-				return true
-			}
-			cc := &canonCtx{info: info, subst: map[types.Object]string{}, locals: map[types.Object]string{}}
-			guards[name] = cc.expr(ei.Cond)
-			pos[name] = ei.Pos()
 			return true
 		})
 	}
